@@ -23,8 +23,8 @@ open Fcgi Fcgi.Req Fcgi.Str Fcgi.Async Fcgi.Run
 /-- `impl From<parser::Error> for io::Error`: `AbortRequest ↦ ConnectionAborted`, and it is the only
 parser error mapped there. -/
 theorem abort_maps_to_connection_aborted :
-    ioOfPErr .abortRequest = .connectionAborted ∧
-    ∀ e, ioOfPErr e = .connectionAborted → e = .abortRequest := by
+    ioOfPErr .abortRequest = .abortRequest ∧
+    ∀ e, ioOfPErr e = .abortRequest → e = .abortRequest := by
   refine ⟨rfl, fun e h => ?_⟩
   cases e <;> first | rfl | cases h
 
@@ -32,7 +32,7 @@ theorem abort_maps_to_connection_aborted :
 `Err(ConnectionAborted)` at once (no transport call; the parser state is the one `parse` left). -/
 theorem inLoop_abort (fuel : Nat) (r : AReq) (new : Bytes) (dest : Option Nat) (m : MutexSt) (t : Transport)
     (sp : Str.Parser) (h : r.sp.parse new dest = (sp, .err .abortRequest)) :
-    inLoop (fuel + 1) r new dest m t = ({ r with sp := sp }, m, t, .err .connectionAborted) := by
+    inLoop (fuel + 1) r new dest m t = ({ r with sp := sp }, m, t, .err .abortRequest) := by
   simp [inLoop, h, ioOfPErr]
 
 /-- more generally every parser error is returned as its `io::Error` kind -/
@@ -55,10 +55,10 @@ theorem abort_status :
 In both cases `close` starts from its beginning (`.start`) in the same poll. -/
 theorem handler_abort_status (c : Conn) (r : AReq) (h : HState) (r' : AReq) (h' : HState) (e : Env)
     (hp : c.phase = .handler r h) :
-    (handlerPoll (handlerFuel c.env) r h c.env = (r', h', e, .done (.error .connectionAborted)) →
+    (handlerPoll (handlerFuel c.env) r h c.env = (r', h', e, .done (.error .abortRequest)) →
       stepConn c = .next { c with
         phase := .closing r' .start ExitStatus.abort (h'.writers.filter Option.isSome).length,
-        env := e.ev "HE(err:aborted)" }) ∧
+        env := e.ev "HE(err:abort-request)" }) ∧
     (∀ st, handlerPoll (handlerFuel c.env) r h c.env = (r', h', e, .done (.ok st)) →
       stepConn c = .next { c with
         phase := .closing r' .start st (h'.writers.filter Option.isSome).length,
@@ -74,7 +74,7 @@ goes on with phase 2 from the state `writeable()` left. -/
 theorem close_ignores_aborted_writeable (r : AReq) (cs : CloseSt) (status : ExitStatus) (alive : Nat)
     (m : MutexSt) (t : Transport) (r1 : AReq) (b : Bool) (m1 : MutexSt) (t1 : Transport)
     (hcs : cs = .start ∨ cs = .inWriteable)
-    (hw : r.writeablePoll (cs == .inWriteable) m t = (r1, b, m1, t1, .err .connectionAborted)) :
+    (hw : r.writeablePoll (cs == .inWriteable) m t = (r1, b, m1, t1, .err .abortRequest)) :
     closeP1 r cs m t = .ok (r1, m1, t1, .start) ∧
     closePoll r cs status alive m t = closeFrom2 r1 m1 t1 .start status alive := by
   have h1 : closeP1 r cs m t = .ok (r1, m1, t1, .start) := by
@@ -100,7 +100,7 @@ theorem close_after_ok_writeable (r : AReq) (cs : CloseSt) (status : ExitStatus)
 /-- any other error of `writeable()` is returned by `close` -/
 theorem close_returns_other_writeable_errors (r : AReq) (cs : CloseSt) (status : ExitStatus) (alive : Nat)
     (m : MutexSt) (t : Transport) (r1 : AReq) (b : Bool) (m1 : MutexSt) (t1 : Transport) (e : IoErr)
-    (hcs : cs = .start ∨ cs = .inWriteable) (he : e ≠ .connectionAborted)
+    (hcs : cs = .start ∨ cs = .inWriteable) (he : e ≠ .abortRequest)
     (hw : r.writeablePoll (cs == .inWriteable) m t = (r1, b, m1, t1, .err e)) :
     closePoll r cs status alive m t = (r1, .inWriteable, m1, t1, .err e) := by
   have h1 : closeP1 r cs m t = .error (r1, .inWriteable, m1, t1, .err e) := by
@@ -158,7 +158,7 @@ theorem exParseAbort : exAborted.sp.parse [] (some 4) = (exAborted.sp, .err .abo
   rfl
 
 /-- the handler's `read` returns `Err(ConnectionAborted)` -/
-example : inLoop 5 exAborted [] (some 4) none exTr = (exAborted, none, exTr, .err .connectionAborted) :=
+example : inLoop 5 exAborted [] (some 4) none exTr = (exAborted, none, exTr, .err .abortRequest) :=
   inLoop_abort 4 exAborted [] (some 4) none exTr _ exParseAbort
 
 /-- `close(ABORT)` of that request: one epilogue, `EndRequest` carries `"ABRT"`/`RequestComplete`; the
